@@ -23,6 +23,11 @@ func main() {
 		props.C06Worker(os.Args[2])
 		return
 	}
+	if os.Args[1] == "--c13-worker" && len(os.Args) > 3 {
+		from, _ := strconv.Atoi(os.Args[3])
+		props.C13Worker(os.Args[2], from)
+		return
+	}
 	if os.Args[1] == "--c14-worker" && len(os.Args) > 3 {
 		from, _ := strconv.Atoi(os.Args[3])
 		props.C14Worker(os.Args[2], from)
